@@ -2,10 +2,34 @@
 the twin is the un-memoized execution of the same program text."""
 
 
+class _TwinFn:
+    """What a memento function is in the twin program: the plain function, with the call modifiers that generated
+    code uses (they change how a call is run or keyed, never what it returns)."""
+
+    def __init__(self, fn, pargs=(), pkwargs=None):
+        self.fn, self.pargs, self.pkwargs = fn, tuple(pargs), dict(pkwargs or {})
+        self.__name__ = getattr(fn, "__name__", "fn")
+
+    def __call__(self, *a, **k):
+        return self.fn(*(self.pargs + a), **dict(self.pkwargs, **k))
+
+    def force_local(self):
+        return self
+
+    def partial(self, *a, **k):
+        return _TwinFn(self.fn, self.pargs + a, dict(self.pkwargs, **k))
+
+    def call(self, *a, **k):
+        return self(*a, **k)
+
+    def call_batch(self, kwargs_list, raise_first_exception=True):
+        return [self(**kw) for kw in kwargs_list]
+
+
 def memento_function(*plain_fn, **kw):
     if len(plain_fn) == 1 and not kw and callable(plain_fn[0]):
-        return plain_fn[0]
-    return lambda fn: fn
+        return _TwinFn(plain_fn[0])
+    return lambda fn: _TwinFn(fn)
 
 
 class _Box:
